@@ -88,7 +88,7 @@ class C12(TalCheck):
                     "v": "badhtml", "cls": ch.pick(UNCAUGHT_NAMES)}]}], None))
             elif role == "repeat":
                 plans.append(([{"site": k, "n": 0, "do": ["ret", {
-                    "v": "baditer", "n": ch.choose(3),
+                    "v": ch.pick(["baditer", "badseq"]), "n": ch.choose(3),
                     "cls": ch.pick(UNCAUGHT_NAMES)}]}], None))
         # an earlier, recovered failure before a later, propagating one
         sites = sorted(counts)
